@@ -1,7 +1,7 @@
 """Shared anchors for anda_object_store (MetaStore / EncryptedStore / SidecarStore)."""
 import re
 
-from lib import core
+from lib import core, valueflow
 from lib.report import CheckerFault
 
 SC = "anda_object_store::sidecar::SidecarStore::<T, M>"
@@ -143,7 +143,9 @@ def error_swallow_rules(rep, rule, prog):
             origins = [o[1] for o in f.slice_back_local(place.l, proj=place) if o[0] == "call"]
             names = sorted({(o.name or "") for o in origins})
             tol = [rx for rx in TOLERATED_ERR_TO_OK if any(re.search(rx, nm) for nm in names)]
-            hit = f.reachable_from([m["Err"]], avoid=specific) & okb
+            # path-sensitive: `if let Err(e) = r && !matches!(e, NotFound { .. }) { return Err(e) }` routes the other variants
+            # through a flag; constants assigned to it are followed
+            hit = valueflow.reachable_ps(f, m["Err"], avoid=specific) & okb
             n += 1
             o = prog.outer_fn(f)
             short = o.path.rsplit("::", 1)[1]
